@@ -46,6 +46,12 @@ fn mk_operand(k: &str, sh: Shape, side: usize, draw: usize, op: &str, rng: &mut 
   let mut e = Vec::new();
   for i in 0..n {
     let sc = if k == "bool" { Sc::B(rng.chance(1, 2)) }
+    else if draw == 9 {
+      // special floats: NaN, infinities, signed zeros among ordinary values, in different patterns on the two sides
+      let pool: [f64; 7] = [f64::NAN, 1.5, f64::INFINITY, -0.0, f64::NEG_INFINITY, 0.0, -2.5];
+      let x = pool[(i * (2 + side) + side * 3 + (rng.below(2) as usize)) % 7];
+      if k == "f32" { Sc::f32(x as f32) } else { Sc::f64(x) }
+    }
     else if draw == 0 && is_cmp(op) {
       // comparisons: both sides range over the same three values in different patterns, so that
       // every output position sees ties, less-than and greater-than pairs (also under broadcasting)
@@ -70,6 +76,11 @@ fn mk_operand(k: &str, sh: Shape, side: usize, draw: usize, op: &str, rng: &mut 
   match sh { None => e.pop().unwrap(), Some((r, c)) => CVal::M(k.to_string(), r, c, e) }
 }
 
+/// every spelling the grammar documents for an operator (first = the one the twin and the other checks use)
+pub fn spellings(op: &str) -> Vec<&'static str> {
+  match op { "*" => vec!["*", "×"], "/" => vec!["/", "÷"], "!=" => vec!["!=", "¬=", "≠"], "==" => vec!["==", "⩵"], ">=" => vec![">=", "≥"], "<=" => vec!["<=", "≤"], "||" => vec!["||", "∨", "⋁"], "&&" => vec!["&&", "∧", "⋀"], "⊻" => vec!["⊻", "⊕"], "not" => vec!["!", "¬"],
+    "+" => vec!["+"], "-" => vec!["-"], "%" => vec!["%"], "^" => vec!["^"], "<" => vec!["<"], ">" => vec![">"], _ => vec!["?"] }
+}
 fn op_text(op: &str) -> String {
   match op { "neg" => "-a".into(), "not" => "!a".into(), o => format!("a {} b", o) }
 }
@@ -111,6 +122,15 @@ impl Prop for C01 {
             let mut rng = Rng::keyed(seed, &id);
             let lhs = mk_operand(k, *l, 0, dd, op, &mut rng);
             let rhs = mk_operand(k, *r, 1, dd, op, &mut rng);
+            out.push(Case { id, cell, input: json!({"op": op, "kind": k, "lhs": lhs, "rhs": rhs, "rel": rel}) });
+          }
+          if is_float(k) {
+            // special-value draw (both tiers): IEEE comparisons and arithmetic on NaN / infinities / signed zeros
+            let cell = format!("op={};kind={};l={};r={};rel={}", op, k, shape_name(*l), shape_name(*r), rel);
+            let id = format!("{};d=9", cell);
+            let mut rng = Rng::keyed(seed, &id);
+            let lhs = mk_operand(k, *l, 0, 9, op, &mut rng);
+            let rhs = mk_operand(k, *r, 1, 9, op, &mut rng);
             out.push(Case { id, cell, input: json!({"op": op, "kind": k, "lhs": lhs, "rhs": rhs, "rel": rel}) });
           }
         }
@@ -169,10 +189,13 @@ impl Prop for C01 {
     }
     // (the formula is assembled from the two spellings; substituting names inside a text that already holds a string
     // literal would rewrite the literal)
-    let text = match op.as_str() { "neg" => format!("-{}", spelled[0]), "not" => format!("!{}", spelled[0]), o => format!("{} {} {}", spelled[0], o, spelled[1]) };
+    // operator spellings: the grammar accepts several glyphs for some operators (static table from the specification);
+    // the statement under test uses one chosen by the hash, the scalar twin always the first
+    let glyph = { let alts = spellings(&op); alts[((h >> 11) % alts.len() as u64) as usize] };
+    let text = match op.as_str() { "neg" => format!("-{}", spelled[0]), "not" => format!("{}{}", glyph, spelled[0]), _ => format!("{} {} {}", spelled[0], glyph, spelled[1]) };
     let res = s.eval(&text);
     let arm = s.last_arm();
-    let mut tags = vec![format!("form:{}", form)];
+    let mut tags = vec![format!("form:{}", form), format!("glyph:{}", glyph)];
     if res.is_ok() && !arm.is_empty() { tags.push(format!("arm:{}", arm.split_whitespace().next().unwrap_or(""))); }
     if let Ev::ParseErr(m) = &res { return Outcome::inconclusive("harness-parse", m.clone()); }
     if let Ev::Panic(m) = &res { return Outcome::violated("panic-escaped", m.clone()); }
